@@ -89,6 +89,15 @@ def clean_composite_curve(
     if len(x_vals) <= 2:
         return y_vals, x_vals
 
+    # A sample that repeats the previous one carries no information (tables rounded for
+    # storage can hold the same row twice) and would make its neighbours look collinear
+    repeated = np.zeros(len(x_vals), dtype=bool)
+    repeated[1:] = (np.abs(np.diff(x_vals)) <= tol) & (np.abs(np.diff(y_vals)) <= tol)
+    x_vals, y_vals = x_vals[~repeated], y_vals[~repeated]
+
+    if len(x_vals) <= 2:
+        return y_vals, x_vals
+
     x_clean, y_clean = [x_vals[0]], [y_vals[0]]
 
     for i in range(1, len(x_vals) - 1):
@@ -103,7 +112,8 @@ def clean_composite_curve(
         else:
             # Linear interpolation check
             y_interp = y1 + (y3 - y1) * (x2 - x1) / (x3 - x1)
-            if abs(y2 - y_interp) > tol:
+            is_between = min(x1, x3) - tol <= x2 <= max(x1, x3) + tol
+            if abs(y2 - y_interp) > tol or not is_between:
                 x_clean.append(x2)
                 y_clean.append(y2)
 
